@@ -60,10 +60,12 @@ def plan(seed, tier):
         cases.append({"class": "histories", "index": i, "cost": 8})
     for i in range(3 if tier == "quick" else 36):
         cases.append({"class": "cli_tsv", "index": i, "cost": 25})
+    for i in range(6 if tier == "quick" else 120):
+        cases.append({"class": "rollup_history", "index": i, "cost": 10})
     return cases
 
 
-MANDATORY_CLASSES = ["crashpoints", "histories", "cli_tsv"]
+MANDATORY_CLASSES = ["crashpoints", "histories", "cli_tsv", "rollup_history"]
 
 
 # ---------------------------------------------------------------- building blocks
@@ -367,5 +369,112 @@ def run_cli_tsv(case):
     return res
 
 
+def run_rollup_history(case):
+    """brew_rollup: 1..3 earlier rollups (other selections of input sets, base level psm/peptide, destination =
+    the input directory / another directory / the input directory spelt with '..', completed or aborted at a file
+    event), then the observed rollup; its result files must equal those of the same rollup on a pristine input
+    directory holding only the observed inputs."""
+    rng = core.seed_seq(case["seed"], "C09", "rollup", case["index"])
+    res = Result(case)
+    roll = core.mk("mokapot.brew_rollup")
+
+    def rollup(src, dest, base):
+        return core.Call(roll.main, ["--level", base, "--src_dir", str(src), "--dest_dir", str(dest), "--verbosity", "0"])
+
+    with core.scratch("c09r") as d:
+        pool = d / "pool"
+        pool.mkdir()
+        nsets = 4
+        for si in range(nsets):
+            tab = psm.psm_table(rng, n_spectra=int(rng.integers(60, 140)), mult_max=2, key_cols=("ExpMass",), with_rid=False,
+                                file_index=si, pep_pool=int(rng.integers(8, 25)))
+            p = psm.write_pin(tab, d / f"s{si}.pin")
+            s = (tab["df"]["info0"].values + 0.4 * tab["df"]["noise0"].values).astype(float)
+            c = pipeline.run_confidence(pipeline.read_datasets([p]), [s], pool, decoys=True, file_root=f"set{si}.", rng=1,
+                                        peps_algorithm="kde_nnls")
+            if not c.ok:
+                res["status"] = "refused" if c.explicit else "inconclusive"
+                res["note"] = "producer failed: " + c.sig
+                return res
+
+        def install(src, sel):
+            src.mkdir(exist_ok=True)
+            for f in list(src.iterdir()):
+                if f.is_file() and f.name.startswith("set"):
+                    f.unlink()
+            for si in sel:
+                for f in pool.glob(f"set{si}.*"):
+                    shutil.copy(f, src / f.name)
+
+        def draw_sel():
+            k = int(rng.integers(1, nsets))
+            return sorted(int(x) for x in rng.choice(nsets, size=k, replace=False))
+
+        def spell(src, how):
+            if how == "same":
+                return src
+            if how == "dots":
+                (d / "x").mkdir(exist_ok=True)
+                return d / "x" / ".." / src.name
+            o = d / f"dest_{how}"
+            o.mkdir(exist_ok=True)
+            return o
+
+        src = d / "src"
+        hist = []
+        for j in range(int(rng.integers(1, 4))):
+            sel = draw_sel()
+            base = str(rng.choice(["psm", "peptide", "peptide"]))
+            how = str(rng.choice(["same", "same", "dots", "other"]))
+            fate = str(rng.choice(["complete", "complete", "exception"]))
+            install(src, sel)
+            dst = spell(src, how)
+            if fate == "complete":
+                c = rollup(src, dst, base)
+                hist.append(dict(sel=sel, base=base, dest=how, fate=fate, ok=c.ok))
+            else:
+                k = int(rng.integers(1, 12))
+                _abort_producer("exception", k, lambda: rollup(src, dst, base), d)
+                hist.append(dict(sel=sel, base=base, dest=how, fate=fate, k=k))
+        obs_sel = draw_sel()
+        obs_base = str(rng.choice(["psm", "peptide", "peptide"]))
+        obs_how = str(rng.choice(["same", "dots", "other", "fresh"]))
+        install(src, obs_sel)
+        debris = sorted(k for k in snapshot(src) if not k.startswith("set"))
+        inputs_before = {k: v for k, v in snapshot(src).items() if k.startswith("set")}
+        dst = spell(src, obs_how)
+        c = rollup(src, dst, obs_base)
+        res.count("observed_rollups")
+        extra = dict(history=hist, observed=dict(sel=obs_sel, base=obs_base, dest=obs_how), debris=debris[:12])
+        # reference: pristine directories
+        csrc, cdst = d / "clean_src", d / "clean_dst"
+        install(csrc, obs_sel)
+        cdst.mkdir()
+        c0 = rollup(csrc, cdst, obs_base)
+        if not c0.ok:
+            res["status"] = "refused" if c0.explicit else "inconclusive"
+            res["note"] = "reference rollup failed: " + c0.sig
+            return res
+        if not c.ok:
+            res.count("observed_run_failed_loudly")
+            res.setdefault("loud_failures", []).append(c.sig)
+        else:
+            names = {k for k in snapshot(cdst) if ".targets." in k or ".decoys." in k}
+            ref = {k: v for k, v in snapshot(cdst).items() if k in names}
+            got = {k: v for k, v in snapshot(dst).items() if k in names}
+            if got != ref:
+                diff = sorted(k for k in names if got.get(k) != ref.get(k))
+                res.violate("results_depend_on_leftovers", "rollup/" + ",".join(x.split(".")[-1] for x in diff)[:50], files=diff, **extra)
+            res.count("rollup_result_files_compared", len(names))
+            after_inputs = {k: v for k, v in snapshot(src).items() if k.startswith("set")}
+            if after_inputs != inputs_before:
+                res.violate("input_file_changed", "rollup", **extra)
+        res["nontrivial"] = bool(debris) or any(h["dest"] != "same" for h in hist)
+        res["key"] = f"rollup/{len(hist)}/{obs_base}/{obs_how}/{'debris' if debris else 'nodebris'}"
+        res["sample"] = extra
+    return res
+
+
 def run_case(case):
-    return {"crashpoints": run_crashpoints, "histories": run_histories, "cli_tsv": run_cli_tsv}[case["class"]](case)
+    return {"crashpoints": run_crashpoints, "histories": run_histories, "cli_tsv": run_cli_tsv,
+            "rollup_history": run_rollup_history}[case["class"]](case)
